@@ -199,7 +199,7 @@ func runScenarioIn(w *world, out *bufio.Writer, id string, ops []M, facets map[s
 				runtime.Gosched()
 			}
 			switch opStr(op, "op") {
-			case "render", "renderall", "faultsweep", "wrap", "decor", "htmlopts", "regdecor", "snapshot", "nop", "autonew", "autostyles", "measure":
+			case "render", "renderall", "faultsweep", "wrap", "decor", "htmlopts", "regdecor", "snapshot", "nop", "autonew", "liststyles", "measure", "within", "rowlines", "emitter":
 				// (these leave every table as it is: renders before and after them are renders of the same
 				// table, and must agree -- the wrapper's own settings are part of the comparison key)
 			default:
